@@ -88,7 +88,7 @@ func (t *transport) ReadMsg() (messages.Common, error) {
 		case io.EOF, context.Canceled:
 			return nil, err
 		default:
-			return nil, errors.Wrap(err, "reading message")
+			return nil, ErrBroken{Err: err}
 		}
 	}
 
@@ -123,6 +123,16 @@ func isPacketEncrypted(data []byte) bool {
 	authKeyHash := data[:tl.DoubleLen]
 	return binary.LittleEndian.Uint64(authKeyHash) != 0
 }
+
+// ErrBroken reports that the connection can't be read any further: a read timed out, the connection was
+// reset, or a frame was cut short. Whatever is read from it afterwards is not aligned with the frames any
+// more (and the reader behind the connection has given up): the connection has to be replaced.
+type ErrBroken struct {
+	Err error
+}
+
+func (e ErrBroken) Error() string { return "reading message: " + e.Err.Error() }
+func (e ErrBroken) Unwrap() error { return e.Err }
 
 type ErrCode int
 
